@@ -591,7 +591,7 @@ Proof.
   - destruct Hok as [Hl Hok].
     destruct (IH (n + 1) ltac:(lia) Hok) as [e2 D2].
     destruct (gate_defines n [[l]] (fun _ => 0 <? l)) as [e1 D1]; try assumption.
-    { apply vars_upto_Forall. repeat constructor. unfold inr. lia. }
+    { apply vars_upto_Forall. repeat constructor; unfold inr; lia. }
     { reflexivity. }
     { intros s. unfold sat, csat. cbn [forallb existsb]. rewrite orb_false_r, andb_true_r.
       destruct (0 <? l) eqn:E.
